@@ -149,7 +149,8 @@ def solve_all(prop, target, fv, obs, repo, tier, timeout_ms, cross, budget_s=Non
 
 
 def verify_worker(job):
-    prop, target, repo, tier, timeout_ms, canary = job
+    prop, target, repo, tier, timeout_ms, canary = job[:6]
+    shard, nshards = (job[6], job[7]) if len(job) > 7 else (0, 1)
     t0 = time.time()
     out = {"target": target, "obligations": [], "undecided": None, "error": None, "fallback": None}
     from .core import EngineError
@@ -168,6 +169,10 @@ def verify_worker(job):
             out["sha"] = fv.sha
             out["lines"] = fv.nlines
             obs = fv.generate()
+            out["n_generated"] = len(obs)
+            if nshards > 1:
+                # obligation-level parallelism: every shard regenerates (cheap) and solves its share
+                obs = [o for i, o in enumerate(obs) if i % nshards == shard]
             out["obligations"] = solve_all(prop, target, fv, obs, repo, tier, timeout_ms, tier == "thorough")
             out["assumed"] = fv.assumed
             out["abstracted"] = fv.abstract_notes
@@ -195,7 +200,7 @@ def verify_worker(job):
             except Exception as e:  # noqa  (solver resource errors in the stand-in are not verdicts)
                 fb["undecided"] = "%s: %s" % (type(e).__name__, str(e)[:200])
             out["fallback"] = fb
-        if canary and not out["undecided"]:
+        if canary and not out["undecided"] and shard == 0:
             # vacuity canary: `ensures False` must be refuted on at least one path
             c2 = _copy.copy(c)
             c2.ensures = {"canary": "False"}
@@ -263,7 +268,12 @@ def check(prop, tier, repo, seed, jobs):
         return 3
     natives = list(C.NATIVE_CHECKS.get(prop, []))
     timeout_ms = 15000 if tier == "quick" else 60000
-    vjobs = [(prop, c.target, repo, tier, timeout_ms, tier == "thorough") for c in contracts if c.verify]
+    vjobs = []
+    for c in contracts:
+        if c.verify:
+            n = max(1, int(getattr(c, "shards", 1) or 1))
+            for sh in range(n):
+                vjobs.append((prop, c.target, repo, tier, timeout_ms, tier == "thorough", sh, n))
     njobs = [(prop, n["name"], repo, tier, seed) for n in natives if tier in n.get("tiers", ("quick", "thorough"))]
     njobs += [(prop, "domain:" + c.target, repo, tier, seed) for c in contracts if c.native_domain is not None]
     ctx = mp.get_context("fork")
@@ -318,6 +328,24 @@ def check(prop, tier, repo, seed, jobs):
             violations.append((ob.get("replay_path"), " no-failing-input-found", ob["name"]))
         return True
 
+    merged = {}
+    for res in vres:
+        t_ = res["target"]
+        if t_ not in merged:
+            merged[t_] = res
+            continue
+        m_ = merged[t_]
+        m_["obligations"] = m_.get("obligations", []) + res.get("obligations", [])
+        m_["wall"] = max(m_.get("wall", 0), res.get("wall", 0))
+        for k_ in ("error", "undecided"):
+            m_[k_] = m_.get(k_) or res.get(k_)
+        if res.get("fallback") and not m_.get("fallback"):
+            m_["fallback"] = res["fallback"]
+        for k_ in ("assumed", "abstracted"):
+            for a_ in res.get(k_) or []:
+                if a_ not in (m_.get(k_) or []):
+                    m_.setdefault(k_, []).append(a_)
+    vres = list(merged.values())
     for res in vres:
         if res.get("error"):
             errors.append("%s: %s" % (res["target"], res["error"]))
